@@ -2,7 +2,7 @@
 from __future__ import annotations
 from .common import cps
 
-VALUE_POOL = ['', 'x', 'X', 'xy', 'x y', 'y x', 'x-y', 'x-', ' x', 'x\ny', 'yx', 'Y', 'y', 'x.y', 'xzy', 'x.y-z', 'xzy-z', 'x+', 'xx', 'x|y', 'x$']
+VALUE_POOL = ['', 'x', 'X', 'xy', 'x y', 'y x', 'x-y', 'x-', ' x', 'x\ny', 'yx', 'Y', 'y', 'x.y', 'xzy', 'x.y-z', 'xzy-z', 'x+', 'xx', 'x|y', 'x$', 'x\n', 'k', '\u212a']
 FLAGS = [('empty', 0x1), ('root', 0x2), ('default', 0x4), ('indeterminate', 0x8), ('scope', 0x10), ('dir_ltr', 0x20), ('dir_rtl', 0x40),
          ('in_range', 0x80), ('out_of_range', 0x100), ('defined', 0x200), ('placeholder', 0x400)]
 OTHER_FLAGS = 0
